@@ -69,22 +69,22 @@ theorem loneJump_two (x y : LItem) (l : List LItem) : loneJump (x :: y :: l) = n
   cases x <;> rfl
 
 /-- one `Jump` to a label of the loop / case stack -/
-theorem exit_piece (cx : Cx) (o l : Nat) (s s' : St) (hl : s'.loops = s.loops) (hc : s'.cases = s.cases) (env : Src.Env)
+theorem exit_piece (cx : Cx) (o l : Nat) (s s' : St) (hs : SameStk s s') (env : Src.Env)
     (trf : Nat → Src.B → Src.B × Nat) (hgrow : ∀ k b, Grow cx.Z b (trf k b).1)
-    (hex : ∀ m j, ExitsOK cx m j s env → ∃ n, (∀ k b, trf k b = (b, n)) ∧ R2 cx m j (target cx.rs l) n) :
+    (hex : ∀ m j, ExitsOK cx m j s env → NamedIn cx s' → ∃ n, (∀ k b, trf k b = (b, n)) ∧ R2 cx m j (target cx.rs l) n) :
     PieceOK cx [.ljump ⟨o, Gen.op_jump, []⟩ (some l)] s s' trf env := by
-  refine ⟨hl, hc, ?_, ?_, ?_, ?_, hgrow, ?_⟩
+  refine ⟨hs.1, hs.2, hs.3, ?_, ?_, ?_, ?_, hgrow, ?_⟩
   · simp [lastNotCtx, isCtxL]
   · intro x hx root e; simp at hx; subst hx; cases e
   · intro h0; simp at h0
-  · intro l' hl' m j hx
+  · intro l' hl' m j hx hin
     have : l = l' := by simpa [loneJump] using hl'
-    subst this; exact hex m j hx
-  · intro r i0 hp _ k b _ m j hx _
-    obtain ⟨n, htr, hr⟩ := hex m j hx
+    subst this; exact hex m j hx hin
+  · intro r i0 hp _ k b _ m j hx hin _
+    obtain ⟨n, htr, hr⟩ := hex m j hx hin
     rw [htr]
     have hit : itemAt cx.rs ⟨r, i0⟩ = some (.ljump ⟨o, Gen.op_jump, []⟩ (some l)) := by simpa using hp.item (d := 0) rfl
-    exact R2.silL (lab_jump hit jump_isJump) hr
+    exact ⟨R2.silL (lab_jump hit jump_isJump) hr, LabExport.same (fun _ _ => rfl)⟩
 
 theorem cont_pm (cx : Cx) (fuel : Nat) (env : Src.Env) : PM cx contStmt (fun k b => Src.tr fuel [] env .cont k b) env := by
   intro s items s' h
@@ -101,7 +101,7 @@ theorem cont_pm (cx : Cx) (fuel : Nat) (env : Src.Env) : PM cx contStmt (fun k b
     simp only [Prod.mk.injEq] at h4
     obtain ⟨rfl, rfl⟩ := h4
     obtain ⟨rfl, rfl⟩ := genJump_spec h3
-    refine exit_piece cx _ l.1 s1 (s1.tickedOp 1) rfl rfl env _ (fun k b => ?_) (fun m j hx => ?_)
+    refine exit_piece cx _ l.1 s1 (s1.tickedOp 1) (sameStk_tickedOp _ _) env _ (fun k b => ?_) (fun m j hx _ => ?_)
     · rw [Src.tr]
       cases env.cont with
       | some t => exact Grow.refl b
@@ -124,7 +124,7 @@ theorem brkLoop_pm (cx : Cx) (fuel : Nat) (env : Src.Env) : PM cx brkLoopStmt (f
     simp only [Prod.mk.injEq] at h4
     obtain ⟨rfl, rfl⟩ := h4
     obtain ⟨rfl, rfl⟩ := genJump_spec h3
-    refine exit_piece cx _ l.2 s1 (s1.tickedOp 1) rfl rfl env _ (fun k b => ?_) (fun m j hx => ?_)
+    refine exit_piece cx _ l.2 s1 (s1.tickedOp 1) (sameStk_tickedOp _ _) env _ (fun k b => ?_) (fun m j hx _ => ?_)
     · rw [Src.tr]
       cases env.brkLoop with
       | some t => exact Grow.refl b
@@ -147,7 +147,7 @@ theorem brk_pm (cx : Cx) (fuel : Nat) (env : Src.Env) : PM cx brkStmt (fun k b =
     simp only [Prod.mk.injEq] at h4
     obtain ⟨rfl, rfl⟩ := h4
     obtain ⟨rfl, rfl⟩ := genJump_spec h3
-    refine exit_piece cx _ e s1 (s1.tickedOp 1) rfl rfl env _ (fun k b => ?_) (fun m j hx => ?_)
+    refine exit_piece cx _ e s1 (s1.tickedOp 1) (sameStk_tickedOp _ _) env _ (fun k b => ?_) (fun m j hx _ => ?_)
     · rw [Src.tr]
       cases env.brk with
       | some t => exact Grow.refl b
@@ -172,18 +172,20 @@ theorem loop_block_shape {bodyM : M (List LItem)} {sa sc : St} {blk : Blk} (h : 
 theorem loop_body_run (cx : Cx) {ops : List LItem} {sa sb : St} {trB : Nat → Src.B → Src.B × Nat} {env' : Src.Env}
     (hB : PieceOK cx ops sa sb trB env') (sL eB : Nat) (tail : List LItem) {r ib : Nat}
     (hp : Placed cx.rs r ib ([.label sL false] ++ ops ++ [.label eB false] ++ tail)) (k : Nat) (b : Src.B)
-    (hag : AgreeOn cx.N cx.Z b (trB k b).1) (m j : Nat) (hex : ExitsOK cx m j sa env')
-    (hafter : R2 cx m j ⟨r, ib + ops.length + 2⟩ k) : R2 cx m j ⟨r, ib⟩ (trB k b).2 := by
+    (hag : AgreeOn cx.N cx.Z b (trB k b).1) (m j : Nat) (hex : ExitsOK cx m j sa env') (hin : NamedIn cx sb)
+    (hafter : R2 cx m j ⟨r, ib + ops.length + 2⟩ k) : R2 cx m j ⟨r, ib⟩ (trB k b).2 ∧ LabExport cx env' m j b (trB k b).1 := by
   have hp' : Placed cx.rs r ib ([.label sL false] ++ ops ++ ([.label eB false] ++ tail)) := by
     simpa [List.append_assoc] using hp
-  refine (block_enter cx hB sL _ hp' k b hag m j hex (fun _ => ?_)).1
-  have hit : itemAt cx.rs ⟨r, ib + 1 + ops.length⟩ = some (.label eB false) := by
-    have e0 : ib + 1 + ops.length = ib + ([LItem.label sL false] ++ ops).length := by simp; omega
-    rw [e0]
-    exact Placed.here (pre := [.label sL false] ++ ops) (x := .label eB false) (post := tail) (by simpa [List.append_assoc] using hp)
-  refine R2.silL (lab_label hit) ?_
-  have e : (⟨r, ib + 1 + ops.length⟩ : LPos).next = ⟨r, ib + ops.length + 2⟩ := by
-    simp only [LPos.next, LPos.mk.injEq, true_and]; omega
-  rw [e]; exact hafter
+  have hafter' : falls ops = true → R2 cx m j ⟨r, ib + 1 + ops.length⟩ k := by
+    intro _
+    have hit : itemAt cx.rs ⟨r, ib + 1 + ops.length⟩ = some (.label eB false) := by
+      have e0 : ib + 1 + ops.length = ib + ([LItem.label sL false] ++ ops).length := by simp; omega
+      rw [e0]
+      exact Placed.here (pre := [.label sL false] ++ ops) (x := .label eB false) (post := tail) (by simpa [List.append_assoc] using hp)
+    refine R2.silL (lab_label hit) ?_
+    have e : (⟨r, ib + 1 + ops.length⟩ : LPos).next = ⟨r, ib + ops.length + 2⟩ := by
+      simp only [LPos.next, LPos.mk.injEq, true_and]; omega
+    rw [e]; exact hafter
+  exact ⟨(block_enter cx hB sL _ hp' k b hag m j hex hin hafter').1, block_labs cx hB sL _ hp' k b hag m j hex hin hafter'⟩
 
 end ESV.Comp
